@@ -355,6 +355,31 @@ structure ASpec where
   rightmost : Bool
   deriving DecidableEq, Repr
 
+/-- `AdapterSpecification.parse` after `parse_search_parameters` and `expand_braces`: `sq` is the expanded specification
+    (still with `^`, `$`, `X`), `parameters0` the parsed search parameters -/
+def aspecCore (name : Option Str) (sq : Str) (parameters0 : Params) (t : AType) : Except Err ASpec :=
+  let rightmost : Bool := match parameters0.get .rightmost with | some v => v.truthy | none => false
+  let parameters := parameters0.erase .rightmost
+  if sq.all (· = 'X') then .ok ⟨name, none, sq, [], t, false⟩
+  else
+    match parseRestrictions sq with
+    | none => .error .multipleRestrictions
+    | some (fr, br, sq) =>
+      if t = .front ∧ br.isSome then .error .front5
+      else if t = .back ∧ fr.isSome then .error .back3
+      else
+        let restriction := if fr.isSome then fr else br
+        if t = .anywhere ∧ restriction.isSome then .error .anywhereRestriction
+        else if parameters.has .minOverlap ∧ restriction = some .anchored then .error .anchoredMinOverlap
+        else
+          let parameters :=
+            match parameters.get .minOverlap with
+            | some v => if v.gtNat sq.length then parameters.map (fun kv => if kv.1 = .minOverlap then (kv.1, .int sq.length) else kv)
+                        else parameters
+            | none => parameters
+          if rightmost ∧ (t ≠ .front ∨ restriction.isSome) then .error .rightmost
+          else .ok ⟨name, restriction, sq, parameters, t, rightmost⟩
+
 /-- `AdapterSpecification.parse` -/
 def parseASpec (spec : Str) (t : AType) : Except Err ASpec :=
   let p := partition1 ';' spec
@@ -364,28 +389,7 @@ def parseASpec (spec : Str) (t : AType) : Except Err ASpec :=
   | .ok parameters0 =>
     match expandBraces ne.2 with
     | .error e => .error e
-    | .ok sq =>
-      let rightmost : Bool := match parameters0.get .rightmost with | some v => v.truthy | none => false
-      let parameters := parameters0.erase .rightmost
-      if sq.all (· = 'X') then .ok ⟨ne.1, none, sq, [], t, false⟩
-      else
-        match parseRestrictions sq with
-        | none => .error .multipleRestrictions
-        | some (fr, br, sq) =>
-          if t = .front ∧ br.isSome then .error .front5
-          else if t = .back ∧ fr.isSome then .error .back3
-          else
-            let restriction := if fr.isSome then fr else br
-            if t = .anywhere ∧ restriction.isSome then .error .anywhereRestriction
-            else if parameters.has .minOverlap ∧ restriction = some .anchored then .error .anchoredMinOverlap
-            else
-              let parameters :=
-                match parameters.get .minOverlap with
-                | some v => if v.gtNat sq.length then parameters.map (fun kv => if kv.1 = .minOverlap then (kv.1, .int sq.length) else kv)
-                            else parameters
-                | none => parameters
-              if rightmost ∧ (t ≠ .front ∨ restriction.isSome) then .error .rightmost
-              else .ok ⟨ne.1, restriction, sq, parameters, t, rightmost⟩
+    | .ok sq => aspecCore ne.1 sq parameters0 t
 
 /-- `_restriction_to_class` (combinations excluded by `parse` map to the unrestricted class) -/
 def clsOf (t : AType) (r : Option Restriction) (rightmost : Bool) : Cls :=
